@@ -681,10 +681,24 @@ twice from the same state gives equal results), C03_ser_twice_equal (FULL: ser_m
 exists h2, ser_model np h1 m = Ok (h2, q): the second to_proto, from the state the first one left behind, yields
 the same proto; C03/Twice.v, "the serializer never reads a tensor's own name"), C03_ser_readonly (ser_model changes nothing in the heap but tensor
 names), C03_roundtrip_consistent_partial (whatever was serialized, if the proto deserializes the result satisfies
-the use-def invariant).  The principal statement C03_iso (Inv h -> serializable h m -> the round trip is
-isomorphic) is NOT proved: `iso_statement_b np h m` - the statement instantiated on the concrete state - is
-evaluated by Coq on every generated case (must be true), together with the agreement of the model with the code on
-that case.  Hence ck.level = "translation_validation".
+the use-def invariant).
+C03_iso IS PROVED (Property.v, closed under the global context; proof: C03/Tree.v TreeF.v IsoSer.v IsoSerF.v
+IsoDeserA..I.v IsoDeser.v IsoDeserM.v IsoThm.v IsoThmF.v): forall np h m, serializable_tm np h m = true ->
+exists h1 q h2 m2, ser_model np h m = Ok (h1,q) /\ deser_model q = Ok (h2,m2) /\ unfold_model [] h2 m2 =
+unfold_model np h m /\ Inv h2, for whole models (nested graphs with captured outer-scope values, unsorted node
+order, optional inputs, empty-named outputs, initializers, model-local functions); C03_iso_graphs is the version for
+models without functions.  Isomorphism is stated as EQUALITY OF UNFOLDINGS: unfold_model replaces every value
+occurrence by (scope depth, index among the values the scope defines), computed from object identity, and keeps
+names, payloads, operator identifiers, tensors and order; derived links (uses, producer/index, flags, owner) follow
+from Inv, which holds at both ends.  `serializable_tm` (boolean) = the leaf normalisation table is sane (np_ok) and
+the unfolding is well formed (wf_m: names present and unique per scope; every reference is what name resolution
+through the scope chain gives; flags agree with membership; payload written at an output = payload at the definition;
+non-input initializers have type+shape (fill fixpoint)).  It is WEAKER than the earlier Iso.serializable_b && inv_b
+(restrictions (1) and (2) below are gone: the unfolding compares what the format carries); the implication
+old => new and the theorem's statement itself (`iso_tm_statement_b`) are evaluated by Coq on every generated case.
+C03_ser_deser_ser: under serializable_tm and an idempotent leaf normalisation, ser (deser (ser h)) = ser h.
+Hence ck.level = "proof".  (The canonical-observation statement `iso_statement_b` of Iso.v is still evaluated per
+case as an independent formulation of the same property.)
 Restrictions of `serializable` added by this check after Coq evaluated a state it accepted whose round trip is not
 isomorphic (Iso.serializable_b; each mirrored in py_serializable): (1) only initializers carry a const_value
 (documented as ignored elsewhere); (2) no tensor object is the const_value of two values (tensor names are per
@@ -2901,7 +2915,7 @@ def run(ck) -> None:
     ck.coverage["rule"] = ("non-trivial = model satisfying `serializable` (Python and Coq agree) that has a nested "
                            "graph, a function or a non-empty edit history, round-tripped and compared by the "
                            "independent isomorphism check")
-    ck.level = "translation_validation"      # C03_iso itself is not proved: its statement is evaluated per case
+    ck.level = "proof"      # C03_iso is proved (Property.v); its statement is also evaluated per case
     ck.prove("C03")
     n_cases = 420 if not ck.thorough else 9000
     recipes = [(c["recipe"], "corpus:" + fn) for fn, c in load_corpus()]
